@@ -544,3 +544,15 @@ Proof.
     apply filter_In in Ha as (Ha & _). rewrite (HA _ _ _ Ha).
     eexists _, _. apply in_app_iff. right. left. reflexivity.
 Qed.
+
+(* ---------------- through the production Queryer ---------------- *)
+Lemma wire_synth_needs_answered_sub_query cf q down s :
+  x_path (serve_wire cf q down s) = PSynth ->
+  exists m mark, s = SubWrite m mark /\ mark <> 2 /\ mark <> 3 /\ m_rcode m = 0
+                 /\ exists o t ip, In (RA o t ip) (m_answer m).
+Proof.
+  unfold serve_wire. intros H. apply synth_needs_a_answer in H as (ar & E & R & A).
+  destruct s as [|m mark]; cbn [al_of_script] in E; [discriminate|].
+  destruct (mark =? 2) eqn:E2; [discriminate|]. destruct (mark =? 3) eqn:E3; [discriminate|].
+  injection E as <-. apply N.eqb_neq in E2, E3. eauto 8.
+Qed.
